@@ -3,6 +3,7 @@
 package main
 
 import (
+	"bytes"
 	"context"
 	"errors"
 	"fmt"
@@ -108,16 +109,20 @@ func (r *reuseRunner) newConn(x int) *simnet.Conn {
 					}
 				}
 			}
-			if op.Kind != simnet.OpWrite || len(op.Data) < 2 {
+			if op.Kind == simnet.OpWrite && len(op.Data) < 2 {
+				return []any{"c", 0, "w", 0, "wok", false}
+			}
+			if op.Kind != simnet.OpWrite {
 				return nil
 			}
 			c := callOf(op.Data[2:])
+			wok := c >= 1 && bytes.Equal(op.Data, framedQuery(c)) // the bytes are exactly that call's framed query
 			r.mu.Lock()
 			r.wcount[c]++
 			w := r.wcount[c]
 			r.lastW[[2]int{x, c}] = w
 			r.mu.Unlock()
-			return []any{"c", c, "w", w}
+			return []any{"c", c, "w", w, "wok", wok}
 		},
 	})
 	r.mu.Lock()
@@ -602,6 +607,9 @@ func runReuse(idx int, sc Script) Result {
 	}
 	r.t = transport.NewReuseConnTransport(transport.ReuseConnOpts{
 		DialContext: func(ctx context.Context) (transport.NetConn, error) {
+			if sc.DialIgnoresCtx { // a dial that returns a connection although it was cancelled
+				ctx = context.Background()
+			}
 			v, err := r.dialer.Await(ctx)
 			if err != nil {
 				return nil, err
@@ -692,7 +700,7 @@ func (r *reuseRunner) convert() []map[string]any {
 		case "SetReadDeadlineRet":
 			out = append(out, map[string]any{"ev": "SetReadDeadline", "x": x, "k": e["hkind"]})
 		case "ConnWrite":
-			out = append(out, map[string]any{"ev": "WriteReq", "x": x, "c": e["c"]})
+			out = append(out, map[string]any{"ev": "WriteReq", "x": x, "c": e["c"], "wok": e["wok"]})
 			if e["dead"] == true {
 				out = append(out, map[string]any{"ev": "WriteRet", "x": x, "c": e["c"], "ok": false})
 			}
